@@ -163,22 +163,12 @@ def prerequisites(ctx, chk, tier):
     """The EER argument composes cm(), the FPR/FNR rates and their threshold setters: re-decide those obligations here."""
     from . import c01, c09, c02s
     from ..spec import cm_oracle
-    for sc, ec in GAMMAS:
-        tab = c01.derive_cm_table(ctx, chk, sc, ec, rule="R01.1")
-        if tab is None:
-            continue
-        orc = cm_oracle(sc, ec)
-        for name in ("tp", "fn", "fp", "tn"):
-            if same(tab[name], orc[name]):
-                chk.hold("R01.1", "%s/%s:%s" % (sc, ec, name), "cm cell = decision rule", nontrivial=False)
-            elif c01.understood(tab[name]):
-                chk.violation("R01.1", SCORES + ".cm", "%s/%s:%s" % (sc, ec, name), show(tab[name], 200), show(orc[name], 200), ctx.where(SCORES + ".cm"))
-            else:
-                chk.unknown("R01.1", "cm cell %s/%s:%s outside the counting model" % (sc, ec, name))
+    c01.cm_cells_rule(ctx, chk)
     c09.inverse_maps(ctx, chk, metrics=("fpr", "fnr"))
     c02s.flip_parity(ctx, chk, metrics=("fpr", "fnr"))
     # eer() reads pos[0], pos[-1], neg[0], neg[-1] as extremes: the class invariant "pos/neg ascending" (R01.4) is a prerequisite
     c01.run_sortedness(ctx, chk, tier)
+    c01.rates_from_cm(ctx, chk, metrics=("fnr", "fpr"))
     # no in-place write to the score arrays and no unsound memo in the functions eer() composes
     from . import c10
     c10.purity(ctx, chk, only=("Scores.eer", "Scores.threshold_at_fpr", "Scores.threshold_at_fnr", "Scores.fpr", "Scores.fnr", "Scores.cm"), strict=False)
